@@ -3,6 +3,7 @@
    Print Assumptions.  GENERATED skeleton (tools/mkprops.py), statements are the ones Coq prints for the lemmas. *)
 From Coq Require Import ZArith List Bool String Reals.
 From VQ Require Import Num Model.Vec Model.Core Model.Residual Proofs.CoreNearest Proofs.ResidualProofs Proofs.CodecProofs Glue.CoreGlue Glue.Pin_p_residual Glue.Pin_p_decode.
+From VQ Require Import Model.Einops Model.Layout Glue.EinopsGlueBase Glue.EinopsGlueMore.
 Import ListNotations.
 Open Scope R_scope.
 
@@ -96,3 +97,82 @@ Theorem C02_tie_public_decoders :
   p_decode.p_decode = pinned_p_decode.
 Proof. exact (@pin_p_decode). Qed.
 Print Assumptions C02_tie_public_decoders.
+
+(* implicit *)
+Theorem C02_src_rvq_minus_one_mask :
+  forall A : Type,
+       @is_layer_mask A pr_more.pr_more "ResidualVQ.get_codes_from_indices:arg:all_codes.masked_fill".
+Proof. exact (@EinopsGlueMore.einops_rvq_layer_mask). Qed.
+Print Assumptions C02_src_rvq_minus_one_mask.
+
+(* implicit *)
+Theorem C02_src_rfsq_minus_one_mask :
+  forall A : Type,
+       @is_layer_mask A pr_more.pr_more "ResidualFSQ.get_codes_from_indices:arg:all_codes.masked_fill".
+Proof. exact (@EinopsGlueMore.einops_rfsq_layer_mask). Qed.
+Print Assumptions C02_src_rfsq_minus_one_mask.
+
+(* implicit *)
+Theorem C02_src_rlfq_minus_one_mask :
+  forall A : Type,
+       @is_layer_mask A pr_more.pr_more "ResidualLFQ.get_codes_from_indices:arg:all_codes.masked_fill".
+Proof. exact (@EinopsGlueMore.einops_rlfq_layer_mask). Qed.
+Print Assumptions C02_src_rlfq_minus_one_mask.
+
+(* implicit *)
+Theorem C02_src_rsvq_minus_one_mask :
+  forall A : Type,
+       @is_layer_mask A pr_more.pr_more "ResidualSimVQ.get_codes_from_indices:arg:all_codes.masked_fill".
+Proof. exact (@EinopsGlueMore.einops_rsvq_layer_mask). Qed.
+Print Assumptions C02_src_rsvq_minus_one_mask.
+
+(* implicit *)
+Theorem C02_src_rfsq_layer_axis :
+  forall A : Type,
+       exists p : pattern,
+         role_pattern pr_more.pr_more "ResidualFSQ.get_codes_from_indices:indices" "rearrange" 0 =
+         @Some pattern p /\
+         wf_rearrange p = true /\
+         (forall (e : env) (J : nat -> nat -> nat -> A) (b n q : nat),
+          (b < e "b")%nat ->
+          (n < e "...")%nat -> (q < e "q")%nat -> @rearr A p e (@of3 A J) [b; n; q] = J b q n).
+Proof. exact (@EinopsGlueMore.einops_rfsq_layer_axis). Qed.
+Print Assumptions C02_src_rfsq_layer_axis.
+
+(* implicit *)
+Theorem C02_src_rsvq_decode_layout :
+  forall A : Type,
+       exists p : pattern,
+         role_pattern pr_more.pr_more "ResidualSimVQ.get_codes_from_indices:all_codes" "rearrange" 0 =
+         @Some pattern p /\
+         wf_rearrange p = true /\
+         (forall (e : env) (Q : nat -> nat -> nat -> nat -> A) (q b d n : nat),
+          (q < e "q")%nat ->
+          (b < e "b")%nat ->
+          (d < e "d")%nat -> (n < e "...")%nat -> @rearr A p e (@of4 A Q) [q; b; d; n] = Q q b n d).
+Proof. exact (@EinopsGlueMore.einops_rsvq_decode_out). Qed.
+Print Assumptions C02_src_rsvq_decode_layout.
+
+(* implicit *)
+Theorem C02_src_simvq_decode_layout :
+  forall A : Type, @is_cfirst_out A pr_more.pr_more "SimVQ.indices_to_codes:quantized" 0.
+Proof. exact (@EinopsGlueMore.einops_simvq_decode_out). Qed.
+Print Assumptions C02_src_simvq_decode_layout.
+
+(* implicit *)
+Theorem C02_src_lq_decode_layout :
+  forall A : Type, @is_cfirst_out A pr_more.pr_more "LatentQuantize.indices_to_codes:codes" 1.
+Proof. exact (@EinopsGlueMore.einops_lq_decode_out). Qed.
+Print Assumptions C02_src_lq_decode_layout.
+
+(* implicit *)
+Theorem C02_src_fsq_decode_layout :
+  forall A : Type, @is_cfirst_out A pr_scalar.pr_scalar "FSQ.indices_to_codes:codes" 1.
+Proof. exact (@EinopsGlueMore.einops_fsq_decode_out). Qed.
+Print Assumptions C02_src_fsq_decode_layout.
+
+(* implicit *)
+Theorem C02_src_lfq_decode_layout :
+  forall A : Type, @is_cfirst_out A pr_scalar.pr_scalar "LFQ.indices_to_codes:codes" 1.
+Proof. exact (@EinopsGlueMore.einops_lfq_decode_out). Qed.
+Print Assumptions C02_src_lfq_decode_layout.
